@@ -836,6 +836,8 @@ type rmodel struct {
 	// failed) is not acknowledged: the version may or may not become durable. It is
 	// the last operation on that id (a later save or delete clears it).
 	doubt map[uint64]*metapb.Region
+	// delKeepsBatch: the behaviour recorded as finding keyDelBatch (a delete does not purge the batch)
+	delKeepsBatch bool
 }
 
 func (m *rmodel) flush() {
@@ -871,10 +873,19 @@ func (m *rmodel) save(r *metapb.Region) {
 	}
 }
 
+// keyDelBatch (owned by C06): while it is known, Storage.DeleteRegion on the region
+// storage leaves a still-buffered save of the id in the batch, and the next flush
+// writes the region back (a leftover, pruned by the next load). Once repaired, a
+// delete also cancels the buffered save: save, delete, flush => not returned.
+const keyDelBatch = "C06/region-storage-delete-ignores-unflushed-save"
+
 func (m *rmodel) del(id uint64) {
 	delete(m.live, id)
 	delete(m.doubt, id)
-	delete(m.disk, id) // the unflushed batch is not purged by a delete
+	delete(m.disk, id)
+	if !m.delKeepsBatch {
+		delete(m.batch, id) // the buffered save is cancelled too (the flush counter is not touched)
+	}
 }
 
 func (m *rmodel) versionOf(r *metapb.Region) int {
@@ -991,7 +1002,8 @@ func runRegionCase(c RCase) (info vkit.Info, err error) {
 		}
 	}
 	m := &rmodel{leveldb: c.Backend == "leveldb", vers: map[uint64][]*metapb.Region{}, live: map[uint64]*metapb.Region{},
-		disk: map[uint64]*metapb.Region{}, batch: map[uint64]*metapb.Region{}, doubt: map[uint64]*metapb.Region{}}
+		disk: map[uint64]*metapb.Region{}, batch: map[uint64]*metapb.Region{}, doubt: map[uint64]*metapb.Region{},
+		delKeepsBatch: vkit.Known(keyDelBatch)}
 	st := f.storage()
 
 	var liveIdx, deadIdx []int // pool indices; liveIdx ascending by time of (re)insertion, deadIdx = deleted/lost
